@@ -55,8 +55,12 @@ def harness(args, timeout=3000):
     return json.loads(last[-1]) if last else {}
 
 # ---------------------------------------------------------------- TLC: model checking
-def tlc_mc(cfg, module, workers=16, timeout=1500, overrides=None, extra='', keep_output=False):
+NCPU = os.cpu_count() or 4
+
+def tlc_mc(cfg, module, workers=None, timeout=1500, overrides=None, extra='', keep_output=False):
     """runs TLC on spec/<cfg>.cfg with spec/<module>.tla; overrides: {'MaxUser': 6} textual replacement in a copy of the cfg"""
+    # the models are small (10^4 - 10^6 states): beyond 8 workers TLC mostly spins; never more workers than cores
+    if workers is None: workers = max(2, min(8 if timeout <= 600 else 16, NCPU))
     os.makedirs(WORK, exist_ok=True)
     cfgpath = SPEC + '/' + cfg + '.cfg'
     if overrides:
@@ -219,8 +223,30 @@ def extract_scenario(lines, scs, scn, dest):
             return dest
     return None
 
-def gen_behaviours(cfg, module, out, simulate=None, timeout=900, seed=1, cap=None, header_extra=None):
-    """TLC as generator: transition cover (BFS under EdgeView) or -simulate; writes header + one behaviour per line"""
+def spec_key(cfg):
+    """identifies the specification a generated artifact belongs to: every module under spec/ and the configuration"""
+    h = hashlib.sha256()
+    for f in sorted(os.listdir(SPEC)):
+        if f.endswith('.tla') and not f.startswith('_'): h.update(f.encode()); h.update(open(SPEC + '/' + f, 'rb').read())
+    h.update(open('%s/%s.cfg' % (SPEC, cfg), 'rb').read())
+    return h.hexdigest()[:16]
+
+def gen_behaviours(cfg, module, out, simulate=None, timeout=900, seed=1, cap=None, header_extra=None, cached=False):
+    """TLC as generator: transition cover (BFS under EdgeView) or -simulate; writes header + one behaviour per line.
+    cached: the exhaustive search behind this configuration is long (a counterexample of the pre-repair model found by brute force);
+    its output - a function of the specification files alone - is kept in spec/cache/<cfg>.json together with the key of the
+    specification it was generated from, and generated again whenever a module or the configuration has changed."""
+    cfile = '%s/cache/%s.json' % (SPEC, cfg)
+    if cached and os.path.exists(cfile):
+        c = json.load(open(cfile))
+        if c.get('spec_key') == spec_key(cfg):
+            hdr = c['header']
+            if header_extra:
+                h = json.loads(hdr); h.update(header_extra); hdr = json.dumps(h)
+            with open(out, 'w') as f:
+                f.write(hdr + '\n')
+                for p in c['behaviours']: f.write(p + '\n')
+            return {'cfg': cfg, 'behaviours': len(c['behaviours']), 'states': c['states'], 'distinct': c['distinct'], 'from_cache': 'spec/cache/%s.json (TLC output for specification %s)' % (cfg, c['spec_key'])}
     md = tempfile.mkdtemp(prefix='tlcgen', dir=WORK)
     extra = ('-simulate num=%d -depth 400 -seed %d' % (simulate, seed)) if simulate else ''
     try:
@@ -239,6 +265,11 @@ def gen_behaviours(cfg, module, out, simulate=None, timeout=900, seed=1, cap=Non
     if cap and len(pre) > cap:
         import random
         random.Random(seed).shuffle(pre); pre = pre[:cap]
+    if cached:
+        try:
+            os.makedirs(SPEC + '/cache', exist_ok=True)
+            json.dump({'spec_key': spec_key(cfg), 'cfg': cfg, 'module': module, 'header': hdr, 'behaviours': pre, 'states': st[0], 'distinct': st[1]}, open(cfile, 'w'), indent=0)
+        except OSError: pass
     if header_extra:
         h = json.loads(hdr); h.update(header_extra); hdr = json.dumps(h)
     with open(out, 'w') as f:
